@@ -24,27 +24,40 @@ LEVEL = 'exploration'
 RULE = ('documents are generated as sequences over the alphabet of line kinds of the property (phase headers with '
         'blanks, unknown/malformed headers, comments, blanks, one-line / here-document / parenthesised / continued '
         'instructions, descriptions on the same line, on previous lines and over several lines, act source lines, '
-        'escaped act lines, `including` directives, incomplete instructions followed by header/blank/comment/EOF) '
-        'with recursively generated included files in sub-directories (depth <= 3), diamonds, cycles, self inclusion, '
-        'missing files and directories; a small alphabet is enumerated exhaustively up to a length bound; CLI cases '
+        'escaped act lines, `including` directives, incomplete instructions followed by header/blank/comment/EOF; '
+        'multi-line instructions: here-documents whose bodies look like headers/comments/directives, parentheses, '
+        'braces (FILES-SOURCE/FILES-CONDITION), operator and list continuation, STDIN of a program on its own line) '
+        'with recursively generated included files in sub-directories (depth <= 3 quick / 5 thorough; relative, '
+        '`./`, `../`, absolute paths, symbolic links, odd file names), diamonds, cycles, self inclusion, '
+        'missing files and directories; the root file in the cwd or a sub-directory, given by relative or absolute '
+        'path; a small alphabet is enumerated exhaustively up to a length bound; CLI cases '
         'are executable documents (sh source actor, marker files) with one planted failing element or a random '
         'order preserving permutation of the phase blocks of every file.  A case is non-trivial when the reference '
         'reader sees >= 2 phases with contents and at least one of: repeated phase, inclusion, multi-line element, '
         'description, escaped act line (API layer), every CLI case is non-trivial; distinct = distinct file set')
 ASSUMPTIONS = [
     'how many lines an instruction spans is decided by a small model of the generated instruction sub-language '
-    '(here-documents, parentheses, trailing operator / list continuation, `$` takes the line) - not by a general '
+    '(here-documents, parentheses, braces with one file per line, trailing operator / list continuation, `-stdin` '
+    'on the line after a program, `$` takes the line) - not by a general '
     'instruction parser; the generators only emit instructions of that sub-language',
-    'an error free reading reports the FIRST error in reading order (inclusions expanded in place); the manual does '
-    'not say which of several errors is reported',
+    'the manual does not say which of several errors of a document is reported: the reported error must be the first '
+    'one in reading order (inclusions expanded in place) or one of the later errors that the reference reader finds '
+    'when it goes on after an error (rest of the erroneous phase block skipped); on the unchanged tree a later one is '
+    'reported only where KF-C07-1 hides the first one (label reported-error:a-later-one...)',
     'the source of an instruction with a description on the same line may be reported with or without the '
     'description part of the line; an error in a described instruction may be located at any line from the '
     'description to the first line of the instruction; description texts are compared modulo white space',
     'a line with only blanks before `[` is a header line (help act: escapes exist for "contents that would otherwise '
     'be treated as phase headers ... at the first non-space characters of a line"); `[ setup ]` is not generated '
     '(manual silent on blanks inside the brackets)',
-    'an incomplete instruction is followed only by header lines, blank lines, comment lines or end of file: the '
-    'manual lets "some" instructions continue on following lines, so a following ordinary line has no single reading',
+    'an incomplete instruction (mandatory argument / value after `=` missing on its line) is an error for certain only '
+    'when, after blank lines, a header line or the end of the file follows; followed by any other line - also one with '
+    'comment syntax, since "lines with comment line syntax may be part of instructions" and "some instructions may '
+    'span multiple lines ... the syntax is not always consistent" - the document has no single reading from there on: '
+    'then only the contents that precede that place are compared (they must be a prefix of every observed phase), and '
+    'any reported error is accepted',
+    'an absolute path in a case is written {HOME}/...; a file reached through an absolute path may be displayed with '
+    'its absolute path',
     'the act phase is compared line by line (file, number, un-escaped text), not by element: how the lines are '
     'grouped into elements is not observable through the manual',
     'exactly one failing element is planted in a CLI document, so that "which failure is reported" is unambiguous',
@@ -503,9 +516,11 @@ def check_cli_location(case) -> Verdict:
             r2 = ref.read_document(files, root, swallow=True)
             if r2.swallowed:
                 ok2 = False
-                if r2.error is None:
-                    ok2 = ident != 'SYNTAX_ERROR' or exp['file'] not in [a for a, _, _ in
-                                                                         parse_location_block(res.err)[1][-1:]]
+                if r2.ambiguous:
+                    ok2 = True  # the defect model makes no prediction
+                elif r2.error is None:
+                    # the document can be read: whatever happens, happens after syntax checking
+                    ok2 = ident not in ('SYNTAX_ERROR', 'FILE_ACCESS_ERROR', None)
                 else:
                     e2 = {'chain': r2.error['chain'], 'file': r2.error['file'], 'lo': r2.error['lo'],
                           'hi': r2.error['hi'], 'lines': None, 'desc': None, 'phase': None}
